@@ -14,13 +14,13 @@ META = {"title": "CLI listings show each packet once, in order, and never hang o
 APID0 = 1000          # packet j of a generated file has APID 1000 + j: a number no other field or value of these files takes
 
 
-def make_file(dirn, n, name=None, tail=b"", period=None):
+def make_file(dirn, n, name=None, tail=b"", period=None, datalen=2):
     """n packets; with `period`, packet k is byte-identical to packet k mod period (idle / retransmitted packets)"""
     path = os.path.join(dirn, name or f"pk{n}{'' if period is None else '-p%d' % period}.bin")
     with open(path, "wb") as f:
         for k in range(n):
             j = k if period is None else k % period
-            f.write(defs.mk_packet(bytes([j, 0xAB]), apid=APID0 + j, seq=j))
+            f.write(defs.mk_packet((bytes([j, 0xAB]) * (datalen // 2 + 1))[:datalen], apid=APID0 + j, seq=j))
         f.write(tail)
     return path
 
@@ -46,8 +46,12 @@ def run_cli(args, timeout=60):
     code = ("import sys; sys.path.insert(0, %r); import space_packet_parser, os; "
             "assert space_packet_parser.__file__.startswith(%r); from space_packet_parser.cli import spp; spp()" % (core.REPO, core.REPO))
     env = dict(os.environ, COLUMNS="200", NO_COLOR="1", TERM="dumb")
+
+    def limit():
+        import resource
+        resource.setrlimit(resource.RLIMIT_AS, (4 << 30, 4 << 30))      # a runaway listing must die in the child, not take the machine down
     try:
-        p = subprocess.run([sys.executable, "-c", code] + args, capture_output=True, text=True, timeout=timeout, env=env)
+        p = subprocess.run([sys.executable, "-c", code] + args, capture_output=True, text=True, timeout=timeout, env=env, preexec_fn=limit)
         return p.returncode, p.stdout + p.stderr, False
     except subprocess.TimeoutExpired as e:
         return None, (e.stdout or b"").decode("utf-8", "ignore") if isinstance(e.stdout, bytes) else (e.stdout or ""), True
@@ -60,7 +64,7 @@ def table_lines(out):
     return [re.findall(r"[A-Za-z0-9_.…-]+", line) for line in out.splitlines()]
 
 
-def listing_rows(out, fields_of=None):
+def listing_rows(out, fields_of=None, lenfield=1):
     """Packet index per table row (-1 for the ellipsis row). A packet row is a line of 7 numeric cells; it is identified by its APID
     cell (1000 + j) and must show exactly the 7 header fields of that packet (compared as a multiset: column order is not fixed by
     the property). A row of 7 numbers that is no packet's header is reported as index -2."""
@@ -70,7 +74,7 @@ def listing_rows(out, fields_of=None):
             rows.append(-1)
         elif len(toks) == 7 and all(re.fullmatch(r"\d+", t) for t in toks):
             ids = [int(t) - APID0 for t in toks if APID0 <= int(t) < APID0 + 64]
-            if len(ids) == 1 and sorted(int(t) for t in toks) == sorted([0, 0, 0, APID0 + ids[0], 3, ids[0], 1]):
+            if len(ids) == 1 and sorted(int(t) for t in toks) == sorted([0, 0, 0, APID0 + ids[0], 3, ids[0], lenfield]):
                 rows.append(ids[0])
             else:
                 rows.append(-2)
@@ -153,11 +157,26 @@ def run(ctx):
             if prob:
                 ctx.violation("C19/parse/" + ("crash" if "exception" in prob else "selection"), prob, {"cmd": "parse", "n": n, "idx": i})
     mixed_section(ctx, tmp)
+    # ---- packets of every size are listed (data fields of 32 768, 40 000 and 65 536 bytes)
+    for dl in (32768, 40000, 65536):
+        path = make_file(tmp, 3, f"big{dl}.bin", datalen=dl)
+        rc, out, to = run_cli(["describe-packets", path], timeout=120)       # child process: time and memory limited
+        exc = "did not terminate within 120 s" if to else None
+        ctx.traces += 1
+        ctx.count(("describe-big", dl))
+        if rc != 0 or exc is not None or listing_rows(out, lenfield=dl - 1) != [0, 1, 2]:
+            ctx.violation("C19/describe-packets/large-packets", f"3 packets with {dl}-byte data fields: exit {rc}, rows {listing_rows(out, lenfield=dl - 1)}, "
+                          f"expected [0, 1, 2]: {out[:200]!r}", {"cmd": "describe", "n": 3, "datalen": dl})
     # ---- the global switches (-q, -v, --log-level) concern logging; what the commands print as their result is the same
     for glob_ in (["-q"], ["-v"], ["--log-level", "ERROR"], ["-q", "-v"]):
         for n in (0, 3, 11):
             path = files.get(n) or make_file(tmp, n)
-            rc, out, exc = in_process(glob_ + ["describe-packets", path])
+            if n in (0, 3):
+                # logging is configured once per process: each switch gets a process of its own for the empty and the small file
+                rc, out, to = run_cli(glob_ + ["describe-packets", path], timeout=120)
+                exc = "did not terminate" if to else ("traceback" if "Traceback" in out else None)
+            else:
+                rc, out, exc = in_process(glob_ + ["describe-packets", path])
             want = list(range(n)) if n <= 10 else [0, 1, 2, 3, 4, -1, n - 5, n - 4, n - 3, n - 2, n - 1]
             ctx.traces += 1
             ctx.count(("global-switch", tuple(glob_), "describe", n))
